@@ -49,3 +49,22 @@ package callable
 //@   ensures parsedBy
 //@   ensures !perr ==> triggerWeight == parsed
 //@   ensures perr ==> triggerWeight == 0
+
+// a new call is a new object (its await channel and cancel function are filled in when it is started)
+//@ func NewCall(funcCall string, returnVar string, parent ParentRole) (call *Call)
+//@   property C08
+//@   ensures call != nil && fresh(call) && call.Func == funcCall && call.Return == returnVar && call.parentRole == parent
+
+// C09 (a failing hook is a failing hook, however it fails): a call whose function expression cannot be evaluated (unknown
+// plugin or function, template error) ends with that error, just as one whose plugin reports through __call_error does;
+// a call that is reported as successful when it never ran would let a critical before_/leave_ hook pass
+//@ func (c *Call) Call() (err error)
+//@   property C09
+//@   opt callee-requires=assume
+//@   ghostvar execErr bool = false
+//@   ghostvar cerr bool = false
+//@   on aftercall (template.Fields).Execute : execErr = result != nil
+//@   on lookup callable.Call.VarStack when key == "__call_error" : cerr = result1 && len(result0) > 0
+//@   ensures execErr ==> err != nil
+//@   ensures !execErr && cerr ==> err != nil
+
